@@ -235,6 +235,15 @@ def paired_branches(ctx, rule="R18.3"):
     ctx.floor(rule, "special-value predicates", n_pred, 6)
 
 
+def ev_none(test):
+    """condition value for data_range = None: only the `data_range is not None and ...` shape is supported (short-circuit)"""
+    if isinstance(test, ast.BoolOp) and isinstance(test.op, ast.And) and ast.unparse(test.values[0]) == "data_range is not None":
+        return False
+    if ast.unparse(test) == "data_range is not None":
+        return False
+    raise ValueError("condition does not start with `data_range is not None`")
+
+
 def nan_template(ctx, rule="R18.4"):
     prog = ctx.prog
     ci = prog.cls(NB, "Normalizer")
@@ -252,6 +261,73 @@ def nan_template(ctx, rule="R18.4"):
             ctx.undecided(rule, site, "range test not an order guard: %s" % e)
     if tab is not None:
         ctx.check(tab == "FFTFF", rule, site, "a value counts as in range exactly on the open interval (truth table over 5 order types: %s)" % tab, "open-range")
+    # the range test runs iff the range has at least one finite bound: evaluate its condition for the four kinds of range
+    rif = [s for s in fn.body if isinstance(s, ast.If) and any(isinstance(n, ast.Name) and n.id == "dat_in" and isinstance(n.ctx, ast.Store) for n in ast.walk(s))]
+    if len(rif) == 1:
+        import math
+
+        def ev(e, rng):
+            t = ast.unparse(e)
+            if t == "data_range":
+                return rng
+            if isinstance(e, ast.Constant):
+                return e.value
+            if t in ("np.inf", "math.inf"):
+                return math.inf
+            if isinstance(e, ast.UnaryOp) and isinstance(e.op, ast.USub):
+                return -ev(e.operand, rng)
+            if isinstance(e, ast.UnaryOp) and isinstance(e.op, ast.Not):
+                return not ev(e.operand, rng)
+            if isinstance(e, ast.Subscript) and ast.unparse(e.value) == "data_range" and isinstance(e.slice, ast.Constant):
+                return rng[e.slice.value]
+            if isinstance(e, ast.Call):
+                f = ast.unparse(e.func)
+                a = [ev(x, rng) for x in e.args]
+                lift = lambda g, v: [g(x) for x in v] if isinstance(v, (list, tuple)) else g(v)
+                if f in ("np.min", "min", "np.amin"):
+                    return min(a[0]) if isinstance(a[0], (list, tuple)) else a[0]
+                if f in ("np.max", "max", "np.amax"):
+                    return max(a[0]) if isinstance(a[0], (list, tuple)) else a[0]
+                if f in ("np.abs", "abs", "np.absolute", "np.fabs"):
+                    return lift(abs, a[0])
+                if f == "np.isfinite":
+                    return lift(math.isfinite, a[0])
+                if f == "np.isinf":
+                    return lift(math.isinf, a[0])
+                if f in ("np.any", "any"):
+                    return any(a[0])
+                if f in ("np.all", "all"):
+                    return all(a[0])
+                if f == "np.logical_not":
+                    return lift(lambda x: not x, a[0])
+                raise ValueError("call " + f)
+            if isinstance(e, ast.BoolOp):
+                vals = [ev(v, rng) for v in e.values]
+                return all(vals) if isinstance(e.op, ast.And) else any(vals)
+            if isinstance(e, ast.Compare) and len(e.ops) == 1:
+                l, r = ev(e.left, rng), ev(e.comparators[0], rng)
+                op = e.ops[0]
+                if isinstance(op, (ast.Is, ast.IsNot)):
+                    res = (l is None) == (r is None) and (l is None or l == r)
+                    return res if isinstance(op, ast.Is) else not res
+                return {ast.Lt: l < r, ast.LtE: l <= r, ast.Gt: l > r, ast.GtE: l >= r, ast.Eq: l == r, ast.NotEq: l != r}[type(op)]
+            raise ValueError("expression " + t)
+
+        kinds = [("(-inf, inf)", (-math.inf, math.inf), False), ("(a, inf)", (0.0, math.inf), True), ("(-inf, b)", (-math.inf, 0.5), True), ("(a, b)", (-1.0, 1.0), True), ("None", None, False)]
+        got = []
+        try:
+            for label, rng, want in kinds:
+                got.append((label, bool(ev(rif[0].test, rng)) if rng is not None else bool(ev_none(rif[0].test)), want))
+        except NameError:
+            got = None
+        except (ValueError, TypeError, KeyError) as e:
+            ctx.undecided(rule, site, "range-test condition not evaluable: %s" % e)
+            got = None
+        if got is not None:
+            bad = [g for g in got if g[1] != g[2]]
+            ctx.check(not bad, rule, site, "the range test is applied exactly when the range has a finite bound: %s" % [(g[0], g[1]) for g in got], "range-test-when")
+    else:
+        ctx.undecided(rule, site, "no `if <range has a finite bound>: dat_in = ...` block found in _check_input")
     aug = [norm_stmt(n) for n in ast.walk(fn) if isinstance(n, ast.AugAssign)]
     ctx.check("is_data[is_data] &= dat_in" in aug, rule, site, "out-of-range values are removed from the data mask", "mask-update")
     sel = [norm_stmt(n) for n in ast.walk(fn) if isinstance(n, ast.Assign) and ast.unparse(n.targets[0]) == "data"]
